@@ -26,10 +26,10 @@ def scenarios(tier, seed):
     rnd = random.Random(seed)
     scen = []
 
-    def add(names, deps, defs, req, failing=(), files=(), second=False, reps=3):
+    def add(names, deps, defs, req, failing=(), files=(), second=False, reps=3, vars_=()):
         scen.append({"id": len(scen) + 1,
                      "tasks": [{"name": n, "deps": list(deps[n]), "file": n in files, "count": defs.get(n, 1)} for n in names],
-                     "req": list(req), "failing": list(failing), "reps": reps, "second": second})
+                     "req": list(req), "failing": list(failing), "reps": reps, "second": second, "vars": list(vars_)})
 
     names = ["a", "b", "c"]
     allt = names + ["u"]
@@ -47,6 +47,9 @@ def scenarios(tier, seed):
         add(names, deps, {}, rnd.choice(reqs), failing=rnd.choice([["a"], ["b"], ["c"], ["a", "b"], ["a", "b", "c"]]))
         if rnd.random() < 0.25:
             add(names, deps, {}, rnd.choice(reqs), files=("a", "c"), second=True)
+        # global variables that carry the names of tasks (an identifier in a dependency list still means the task)
+        if rnd.random() < 0.3:
+            add(names, deps, {}, rnd.choice(reqs), vars_=rnd.sample(names, rnd.randint(1, 3)))
         # the same dependency listed twice in one task
         if rnd.random() < 0.3:
             add(names, {n: list(deps[n]) + list(deps[n])[:1] for n in names}, {}, rnd.choice(reqs))
@@ -87,7 +90,8 @@ def scenarios(tier, seed):
             defs[rnd.choice(ns)] = 2
         rq = rnd.sample(ns, rnd.randint(1, 3))
         fl = rnd.sample(ns, rnd.randint(1, 2)) if rnd.random() < 0.2 else []
-        add(ns, deps, defs, rq, failing=fl, files=tuple(rnd.sample(ns, 2)), second=rnd.random() < 0.3, reps=5)
+        add(ns, deps, defs, rq, failing=fl, files=tuple(rnd.sample(ns, 2)), second=rnd.random() < 0.3, reps=5,
+            vars_=rnd.sample(ns, 2) if rnd.random() < 0.15 else ())
     return scen
 
 
